@@ -10,6 +10,12 @@ Proof. exact name_layout. Qed.
 Check C20_name_layout : forall n, name_in_range n = true -> name_bytes n = le64 (name_value n).
 Print Assumptions C20_name_layout.
 
+(* for EVERY value of the (wider) configuration fields: the layout of the fields reduced to their widths *)
+Theorem C20_name_layout_any : forall n, name_bytes n = le64 (name_value (name_norm n)).
+Proof. exact name_layout_any. Qed.
+Check C20_name_layout_any : forall n, name_bytes n = le64 (name_value (name_norm n)).
+Print Assumptions C20_name_layout_any.
+
 Theorem C20_name_roundtrip : forall n, name_in_range n = true ->
   match name_bytes n with
   | [b0; b1; b2; b3; b4; b5; b6; b7] =>
